@@ -14,7 +14,8 @@ from .. import simfs
 DEFAULT = simfs.DEFAULT_FMT
 FORMATS = [DEFAULT, "4Y-2M-2D 2h:2m:2s", "4Y-2M-2DT2h:2m:2sZ",
            "2D/2M/4Y 2h:2m:2s.3z", "4Y2M2D2h2m2s", "2h:2m:2s 2D-2M-4Y", "2M/2D/4Y 2h:2m:2s",
-           "2D/2M/4Y 2h:2m:2s.2z", "4Y-2M-2D 2h:2m:2s.1z"]           # hundredths / tenths of a second
+           "2D/2M/4Y 2h:2m:2s.2z", "4Y-2M-2D 2h:2m:2s.1z",           # hundredths / tenths of a second
+           "2D/2M/2Y 2h:2m:2s"]                                      # two-digit years (of this century, as documented)
 GPX_FMT = "4Y-2M-2DT2h:2m:2sZ"
 GPX_OK_READ = (GPX_FMT, "4Y-2M-2DT2h:2m:2s")
 SPECIAL_T = [(2020, 2, 29, 23, 59, 59), (2019, 12, 31, 23, 59, 59), (2020, 1, 1, 0, 0, 0),
@@ -195,6 +196,8 @@ class IoWorld(World):
             mids = [[pos[a][0] + r.uniform(-1, 1), pos[a][1] + r.choice([0.25, -1.5, r.uniform(-1, 1)])]
                     for _ in range(r.choice([0, 0, 1, 3]))]
             eid = "e%d" % k
+            if k == 1 and r.random() < 0.1:
+                eid = ""                             # a blank identifier column
             if k >= 1 and r.random() < 0.08:
                 eid = "e%d" % r.randrange(k)         # an identifier used again: the earlier edge is replaced
             edges.append([eid, a, b, r.choice([0, 0, 1, -1]), [end(pos[a])] + mids + [end(pos[b])]])
@@ -618,8 +621,16 @@ class IoWorld(World):
         return "fault" if fired else "ok"
 
     # -- CSV ------------------------------------------------------------------------
+    def _years_fit(self, specs, ids):
+        """A print format with two-digit years only describes instants of the years 2000..2099."""
+        if "2Y" in self.fmt_print and ids[3] >= 0:
+            if any(not (2000 <= o[3][0] <= 2099) for sp in specs for o in sp["obs"]):
+                raise Skip()
+            self.probe("two_digit_years_written")
+
     def op_write_csv(self, st):
         from tracklib.io.track_writer import TrackWriter
+        self._years_fit([st["track"]], st["ids"])
         track, eff = self._track_conv(st["track"])
         if st.get("reuse"):
             kept = self.objs.get((st.get("s", 0), "kept"))
@@ -760,6 +771,7 @@ class IoWorld(World):
     def op_write_csv_dir(self, st):
         from tracklib.io.track_writer import TrackWriter
         from tracklib.core import TrackCollection
+        self._years_fit(st["tracks"], st["ids"])
         coll = TrackCollection([self._track(t) for t in st["tracks"]])
         ids = st["ids"]
         paths = ["%s/track_output_%d.csv" % (st["path"], i) for i in range(len(st["tracks"]))]
